@@ -41,6 +41,27 @@ static int dispatch(Json const & plan) {
     return 9;
 }
 
+// Simulator-owned address-space layout ("simulated ASLR"): with real ASLR switched off (the server is started under
+// setarch -R) the addresses of stack, brk heap and mmap regions are a function of the plan's three offsets, so that a
+// layout-dependent output replays exactly.
+__attribute__((noinline)) static int dispatchWithStackPad(Json const & plan, size_t pad) {
+    volatile char * p = (volatile char *)__builtin_alloca(pad + 16);
+    p[0] = 1;
+    p[pad] = 2;
+    int rc = dispatch(plan);
+    return rc + (p[0] - 1);
+}
+
+static int dispatchWithLayout(Json const & plan) {
+    if (!plan.has("layout")) return dispatch(plan);
+    Json const & L = plan["layout"];
+    size_t brkOff = (size_t)L["brk"].asInt(0), mmapOff = (size_t)L["mmap"].asInt(0), stackOff = (size_t)L["stack"].asInt(0);
+    if (brkOff) { void * r = sbrk((intptr_t)(brkOff & ~(size_t)15)); (void)r; }
+    if (mmapOff) { void * r = mmap(nullptr, (mmapOff + 4095) & ~(size_t)4095, PROT_NONE, MAP_PRIVATE | MAP_ANONYMOUS | MAP_NORESERVE, -1, 0); (void)r; }
+    if (stackOff > (4u << 20)) stackOff = 4u << 20;
+    return dispatchWithStackPad(plan, stackOff & ~(size_t)15);
+}
+
 static std::string readAll(int fd) {
     std::string s;
     char buf[65536];
@@ -73,6 +94,11 @@ static std::string executePlan(std::string const & planText) {
         // child
         dup2(outfd, 1);
         dup2(errfd, 2);
+        // stdio allocates the buffer of stdout at the first output: in the very first child of a server it does not exist yet,
+        // in later ones it was inherited from the parent. A static buffer makes the child's allocation sequence (and with it the
+        // heap layer's padding / garbage stream) independent of how many plans the server has executed before.
+        static char childOutBuf[1 << 16];
+        setvbuf(stdout, childOutBuf, _IOFBF, sizeof childOutBuf);
         int devnull = open("/dev/null", O_RDONLY);
         if (devnull >= 0) dup2(devnull, 0);
         logOpen(logfd);
@@ -87,7 +113,7 @@ static std::string executePlan(std::string const & planText) {
         heapLayerConfigure((uint64_t)plan["heap_seed"].asInt(0), plan.has("heap_garbage") ? plan["heap_garbage"].asBool(true) : true);
         int rc = 9;
         try {
-            rc = dispatch(plan);
+            rc = dispatchWithLayout(plan);
         } catch (std::exception const & e) {
             logRaw(std::string("{\"ev\":\"harness-error\",\"what\":") + jsonEscape(e.what()) + "}");
             rc = 9;
@@ -150,9 +176,14 @@ int main(int argc, char ** argv) {
     using namespace osim;
     signal(SIGPIPE, SIG_IGN);
     if (argc >= 3 && std::string(argv[1]) == "run") {
-        std::ifstream in(argv[2]);
+        // "osim run -": the plan is read from stdin, so that argv (and with it the initial stack address) does not depend on it
         std::stringstream ss;
-        ss << in.rdbuf();
+        if (std::string(argv[2]) == "-") {
+            ss << std::cin.rdbuf();
+        } else {
+            std::ifstream in(argv[2]);
+            ss << in.rdbuf();
+        }
         std::string resp = executePlan(ss.str());
         printf("%s\n", resp.c_str());
         return 0;
